@@ -70,6 +70,9 @@ def make_service(rpyc, counters, shared_instance=False):
         def exposed_call(self, f, x):
             return f(x)
 
+        def exposed_credentials(self):
+            return self._conn._config.get("credentials")
+
         def exposed_subscribe(self, cb):
             # the tutorial's event pattern: keep an asynchronous wrapper of the client's callback
             self.sub = rpyc.async_(cb)
